@@ -213,6 +213,32 @@ pub fn build_case(t: &mut Tape) -> Case {
         let plan = build_plan(t);
         return Case { bytes: encode(&s, &plan).bytes, hostile: true, model: None, sibling: None, variant: None };
     }
+    if t.chance(1, 24) {
+        // a busy frame: 16..30 visible, overlapping, canvas-sized cels on a canvas of 128..160 pixels
+        use crate::model::*;
+        let fmt = t.pick(&[Fmt::Rgba, Fmt::Gray, Fmt::Indexed]);
+        let (w, h) = (128 + t.below(33) as u16, 128 + t.below(33) as u16);
+        let mut s = Sprite::empty(w, h, fmt);
+        if fmt == Fmt::Indexed {
+            let mut r = Rng(t.raw64());
+            s.palette = Some(NewPalette { first: 0, entries: (0..64).map(|_| { let v = r.next(); PalEntry { rgba: [v as u8, (v >> 8) as u8, (v >> 16) as u8, [255u8, 255, 128, 40][(v >> 24) as usize % 4]], name: None } }).collect() });
+        }
+        let nl = 16 + t.below(15) as usize;
+        for i in 0..nl {
+            s.layers.push(Layer { flags: 3, kind: LayerKind::Image, level: 0, blend: if t.chance(1, 2) { 0 } else { t.below(19) as u16 }, opacity: t.u8_biased().max(20), name: format!("busy{}", i), user_data: None });
+            let mut r = Rng(t.raw64());
+            let n = w as usize * h as usize;
+            let pixels: Vec<u8> = match fmt {
+                Fmt::Rgba => (0..n).flat_map(|k| { let v = r.next(); [v as u8, (v >> 8) as u8, (v >> 16) as u8, if k % 3 == 0 { 255 } else { (v >> 24) as u8 }] }).collect(),
+                Fmt::Gray => (0..n).flat_map(|_| { let v = r.next(); [v as u8, (v >> 8) as u8] }).collect(),
+                Fmt::Indexed => (0..n).map(|_| (r.next() % 64) as u8).collect(),
+            };
+            s.frames[0].cels.push(Cel { layer: i as u16, x: -(t.below(3) as i16), y: -(t.below(3) as i16), opacity: t.u8_biased().max(20), content: CelContent::Image { w, h, pixels }, user_data: None });
+        }
+        let mut plan = build_plan(t);
+        plan.zlevel = 1;
+        return Case { bytes: encode(&s, &plan).bytes, hostile: false, model: None, sibling: None, variant: None };
+    }
     if t.chance(1, 3) {
         // accepted-corrupted candidates
         let rest: Vec<u32> = (0..600).map(|_| t.raw()).collect();
